@@ -15,7 +15,8 @@ var c10Hosts = []struct{ name, text string }{
 	{"union", "union U { 1 -> struct S { bool b; } 2 -> message N { 1 -> byte c; } }\n"},
 	{"const", "const int32 c = -5;\nconst string s = \"hi\";\n"},
 	{"attrs", "// doc\n[opcode(\"abcd\")]\nreadonly struct R { [deprecated(\"x\")] float64 f; }\nimport \"i.bop\"\n"},
-	{"empty-bodies", "struct A {}\nmessage B {}\nunion V { 1 -> struct C {} 2 -> message D {} }\nenum E {}\n"},
+	{"empty-bodies", "struct A {}\nmessage B {}\nenum E {}\nunion V { 1 -> message D {} 2 -> struct C {} }\n"},
+	{"no-final-newline", "enum E {}\nunion V { 1 -> message D {} 2 -> struct C {} }"},
 	{"multi-line-union", "union W {\n  /* c */\n  1 -> struct P {\n    int32 x;\n  }\n  // d\n  2 -> message Q {\n    1 -> P p;\n  }\n}\n"},
 }
 
